@@ -192,7 +192,7 @@ package mqtt
 //@ func (*BaseClient).serve
 //@   role reader
 //@   mode int
-//@   props C04 C06 C07 C17
+//@   props C04 C06 C07 C17 C11
 //@   maxpaths 20000
 //@   requires c != nil && c.sig != nil && c.Transport != nil
 //@   assigns nothing
@@ -288,7 +288,7 @@ package mqtt
 
 //@ func (*BaseClient).connStateUpdate
 //@   mode int
-//@   props C16
+//@   props C16 C11
 //@   requires c != nil
 //@   assigns c.connState; c.err
 //@   ensures[C16] absorbing: guardVal(&c.connState) == StateDisconnected ==> c.connState == StateDisconnected && evCount("callback:func(ConnState, error)") == 0
@@ -339,6 +339,9 @@ package mqtt
 //@   ensures[C05,C13] wire: evCount("(*BaseClient).write") <= 1 && (evCount("(*BaseClient).write") == 1 ==> seqEq(evBytes("(*BaseClient).write", 0, 1), cat(b1(0xC0), b1(0))))
 //@   ensures[C07,C11,C13] nil_only_resp: result == nil ==> evCount("select") == 1 && evRet[int]("select", 0, 0) == 2 && fresh(evArg[chan *pktPingResp]("select", 0, 2)) &&
 //@        evIndex("(*BaseClient).write", 0) < evIndex("select", 0)
+//@   ensures[C07,C13] registered_first: evCount("(*BaseClient).write") == 1 ==> evCount("store:signaller.chPingResp") == 1 &&
+//@        evIndex("store:signaller.chPingResp", 0) < evIndex("(*BaseClient).write", 0) && evArg[*signaller]("store:signaller.chPingResp", 0, 0) == sig0 &&
+//@        (evCount("select") == 1 ==> evArg[chan *pktPingResp]("store:signaller.chPingResp", 0, 1) == evArg[chan *pktPingResp]("select", 0, 2))
 //@   ensures[C11] waitset: evCount("select") == 1 ==> evRet[int]("select", 0, 0) >= 0 && evArg[chan struct{}]("select", 0, 0) == c.connClosed &&
 //@        evArg[<-chan struct{}]("select", 0, 1) == evRet[<-chan struct{}]("context.Context.Done", 0, 0) && evArg[context.Context]("context.Context.Done", 0, 0) == ctx
 //@   ensures[C11] no_bare_block: evCount("recv") == 0 && evCount("send") == 0
@@ -390,6 +393,9 @@ package mqtt
 //@   ensures[C06,C11,C16] reader: evCount("(*BaseClient).write") == 1 ==> evCount("go:(*BaseClient).Connect$1") == 1 &&
 //@        evIndex("go:(*BaseClient).Connect$1", 0) < evIndex("(*BaseClient).write", 0)
 //@   ensures[C07] waiter: evCount("select") == 1 ==> fresh(evArg[chan *pktConnAck]("select", 0, 2)) && evIndex("(*BaseClient).write", 0) < evIndex("select", 0)
+//@   ensures[C07] registered_first: evCount("(*BaseClient).write") == 1 ==> evCount("store:signaller.chConnAck") == 1 &&
+//@        evIndex("store:signaller.chConnAck", 0) < evIndex("(*BaseClient).write", 0) && evArg[*signaller]("store:signaller.chConnAck", 0, 0) == c.sig &&
+//@        (evCount("select") == 1 ==> evArg[chan *pktConnAck]("store:signaller.chConnAck", 0, 1) == evArg[chan *pktConnAck]("select", 0, 2))
 //@   ensures[C11] waitset: evCount("select") == 1 ==> evRet[int]("select", 0, 0) >= 0 && evArg[chan struct{}]("select", 0, 0) == c.connClosed &&
 //@        evArg[<-chan struct{}]("select", 0, 1) == evRet[<-chan struct{}]("context.Context.Done", 0, 0) && evArg[context.Context]("context.Context.Done", 0, 0) == ctx
 //@   ensures[C11] no_bare_block: evCount("recv") == 0 && evCount("send") == 0
